@@ -1568,3 +1568,31 @@ def load_consts(schema):
     for k, v in B['StorageAccess']['flags'].items():
         c['naga::StorageAccess::' + k] = mkflags('StorageAccess', v)
     return c
+
+
+@model(r'^Option::<.*>::take$')
+def m_opt_take(it, n, a):
+    r = a[0]
+    v = r.get()
+    r.set(none())
+    return v
+
+
+@model(r'^String::is_empty$|str>::is_empty$')
+def m_str_is_empty(it, n, a):
+    s = arg0(a)
+    if isinstance(s, str):
+        return len(s) == 0
+    if hasattr(s, 'empty'):
+        return s.empty
+    if isinstance(s, TokString):
+        return len(s.toks) == 0
+    raise Unsupported(f'is_empty of {s!r}')
+
+
+@model(r'^String::len$|str>::len$')
+def m_str_len(it, n, a):
+    s = arg0(a)
+    if isinstance(s, str):
+        return len(s.encode())
+    raise Unsupported(f'len of {s!r}')
